@@ -312,6 +312,8 @@ var supporting = map[string]struct {
 		"the digest compared by CP1 stands for 'paths and contents' only if every listed file's whole content and path reach it (HS2, HS3, HS5), a failed hashing stops the run (HE1), no digest is a constant that could equal the cache's 'never succeeded' (HS6), and every file matching a glob dependency is in the hashed list (GL1-GL4)."},
 	"C02": {[]func(*Ctx) *rule{ruleHS1, ruleHS2, ruleHS5, ruleHS7, ruleHS8, ruleGL3, ruleTK5},
 		"an unchanged input set is only skipped if it hashes to the recorded digest again: the digest must not depend on arrival order (HS1) or on anything but path and content (HS2, HS5), the expansion root and pattern must be the same every time (GL3), and a plain file must not be taken for a pattern that matches nothing (TK5)."},
+	"C04": {[]func(*Ctx) *rule{ruleAB1, ruleAB2},
+		"the digest is a function of (absolute path, content): the paths handed to the hasher are absolute because the project root is (AB1, AB2); with a relative root the same files hash differently from one invocation to the next."},
 	"C05": {[]func(*Ctx) *rule{ruleTK5, ruleHS7},
 		"which strings are globs at all (TK5); the remembered expansion of a pattern is handed to the hasher, which must leave it as it is (HS7)."},
 	"C08": {[]func(*Ctx) *rule{ruleTL3, ruleTL4},
